@@ -30,7 +30,8 @@ let parse_bk (s : string) : bkind =
   | ["stack"; n] -> BStack (n_of_string n)
   | ["stackn"; n; sz] -> BStackN (n_of_string n, n_of_string sz)
   | ["empty"] -> BEmpty
-  | ["reloc"] -> BReloc
+  | ["reloc"] -> BReloc (n_of_string "0")
+  | ["reloc"; c0] -> BReloc (n_of_string c0)
   | _ -> fail_parse "backend" s
 
 let parse_api s = match s with "e" -> Erased | "t" -> Typed | _ -> fail_parse "api" s
